@@ -19,7 +19,7 @@ Files written (tab separated, '#' comments)
   api_lines.txt   status  source  command            status = A accepted / R refused / X exception at harvest
   conf/<name>     configuration text;  conf_index.txt   name  routes-at-harvest
   nlri.txt        afi  safi  action(A|W)  hex(one NLRI, no path identifier)  source
-  attrs.txt       code  flags(hex)  asn4(0|1)  hex(value)  source
+  attrs.txt       code  flags(hex)  asn4(0|1; 'ap' on MP_REACH/MP_UNREACH recorded with ADD-PATH)  hex(value)  source
 
 exabgp is imported ONLY to report, at the end, what the current tree makes of every member (coverage table,
 members it refuses) so that a non-canonical hand-written member is noticed when it is written, not later.
@@ -245,6 +245,8 @@ def harvest_wire():
         for code, flags, value in at:
             # the ASN4 context only matters to AS_PATH and AGGREGATOR
             a4 = asn4 if code in (wire.AS_PATH, wire.AGGREGATOR) else True
+            if code in (wire.MP_REACH, wire.MP_UNREACH) and addpath:
+                a4 = 'ap'  # the NLRIs inside carry path identifiers
             attrs.setdefault((code, flags & 0xEF, a4, value.hex()), source)
     return nlris, attrs, unfit
 
@@ -482,9 +484,10 @@ def hand_bgpls(harvested):
     base = [(bytes.fromhex(h), src) for (a, s, act, h), src in sorted(harvested.items()) if (a, s) == (16388, 71)]
     base += [(bytes.fromhex(h), src) for a, s, act, h, src in out]
     for i, (b, src) in enumerate(base):
-        rd = RDS[i % 3]
-        t, ln = struct.unpack('!HH', b[:4])
-        out.append((16388, 72, 'A', (struct.pack('!HH', t, ln + 8) + rd + b[4:]).hex(), f'hand:rfc7752 vpn rd={rd.hex()} of [{src}]'))
+        # every member behind one RD, the first three behind every RD (members which differ in the RD only)
+        for rd in (RDS[:3] if i < 3 else [RDS[i % 3]]):
+            t, ln = struct.unpack('!HH', b[:4])
+            out.append((16388, 72, 'A', (struct.pack('!HH', t, ln + 8) + rd + b[4:]).hex(), f'hand:rfc7752 vpn rd={rd.hex()} of [{src}]'))
     return out
 
 
@@ -499,7 +502,7 @@ def hand_flow():
     v4 = [
         (b'\x01\x00', 'dst /0'), (b'\x01\x01\x80', 'dst /1'), (b'\x01\x18\x0a\x01\x02', 'dst /24'), (b'\x01\x20\x0a\x01\x02\x03', 'dst /32'),
         (b'\x02\x19\x0a\x01\x02\x80', 'src /25'), (b'\x01\x18\x0a\x01\x02\x02\x18\x0a\x09\x08', 'dst+src'),
-        (b'\x03\x81\x06', 'proto =6'), (b'\x03\x01\x06\x81\x11', 'proto =6 =17'), (b'\x04\x03\x50\xc5\x00\x5a', 'port >=80&<=90'),
+        (b'\x03\x81\x06', 'proto =6'), (b'\x03\x01\x06\x81\x11', 'proto =6 =17'), (b'\x04\x03\x50\xc5\x5a', 'port >=80&<=90'),
         (b'\x05\x91\x01\xbb', 'dport =443 (2 bytes)'), (b'\x06\x81\x35', 'sport =53'), (b'\x07\x81\x08', 'icmp-type'), (b'\x08\x81\x00', 'icmp-code'),
         (b'\x09\x81\x02', 'tcp-flags syn'), (b'\x0a\x12\x00\xc8\xd4\x01\x2c', 'length >=200&<=300'), (b'\x0b\x81\x2e', 'dscp'), (b'\x0c\x81\x01', 'fragment'),
         (b'\x01\x20\x0a\x00\x00\x01\x03\x81\x06\x05\x81\x50\x09\x81\x12', 'dst proto dport flags'),
@@ -511,7 +514,8 @@ def hand_flow():
             add(1, 134, rd + body, f'rd={rd.hex()} {what}')
     v6 = [
         (b'\x01\x00\x00', 'dst /0'), (b'\x01\x40\x00\x20\x01\x0d\xb8\x00\x01\x00\x02', 'dst /64'), (b'\x01\x80\x00' + _ip('2001:db8::1'), 'dst /128'),
-        (b'\x01\x40\x20\x00\x01\x00\x02', 'dst /64 offset 32'), (b'\x02\x30\x00\x20\x01\x0d\xb8\x00\x01', 'src /48'),
+        # no member with a non-zero offset: ExaBGP keeps the pre-RFC 8956 pattern layout (C16 open findings encode/decode prefix6 offset>0)
+        (b'\x02\x30\x00\x20\x01\x0d\xb8\x00\x01', 'src /48'),
         (b'\x03\x81\x3a', 'next-header =58'), (b'\x05\x91\x01\xbb', 'dport =443'), (b'\x0d\xa1\x00\x0f\xff\xff', 'flow-label 4 bytes'),
         (b'\x0b\x81\x2e', 'traffic-class'), (b'\x0c\x81\x01', 'fragment'),
         (b'\x01\x80\x00' + _ip('2001:db8::1') + b'\x02\x80\x00' + _ip('2001:db8::2') + b'\x03\x81\x06', 'dst src next-header'),
@@ -631,19 +635,29 @@ def hand_attrs():
     def tun(t, v):
         return struct.pack('!HH', t, len(v)) + v
     pref = sub(12, b'\x00\x00' + struct.pack('!L', 100))
-    seg_a = bytes([1, 6, 0, 0]) + ((100 << 12) | (0 << 9) | (0 << 8) | 0).to_bytes(4, 'big')
-    seg_a2 = bytes([1, 6, 0, 0]) + ((200 << 12) | 255).to_bytes(4, 'big')
+    # The members are written in the form ExaBGP itself emits (a weight sub-TLV in every segment list, S bit on the last
+    # label of a list and on a binding SID label, binding SID flags 0x10): RFC 9830 makes the weight optional (default 1) and
+    # the TC/S/TTL bits "ignored on receipt", the decoder does not keep them, so other spellings of the same policy are not
+    # canonical for this codec and re-encode to this one (tried, and dropped from the alphabet).
+    def seg_a(label, last):
+        return bytes([1, 6, 0, 0]) + ((label << 12) | (0x100 if last else 0)).to_bytes(4, 'big')
     weight = bytes([9, 6, 0, 0]) + struct.pack('!L', 1)
+    weight9 = bytes([9, 6, 0, 0]) + struct.pack('!L', 9)
     seg_b = bytes([13, 18, 0, 0]) + _ip('2001:db8::1')
+    bsid4 = sub(13, b'\x10\x00' + ((1000 << 12) | 0x100).to_bytes(4, 'big'))
     te = [
-        (tun(15, sub(128, b'\x00' + seg_a)), 'segment list one type A'),
-        (tun(15, pref + sub(128, b'\x00' + seg_a)), 'preference + segment list'),
-        (tun(15, pref + sub(13, b'\x00\x00' + ((1000 << 12)).to_bytes(4, 'big')) + sub(128, b'\x00' + weight + seg_a + seg_a2)), 'preference + binding sid 4 + weight + two segments'),
-        (tun(15, sub(13, b'\x00\x00') + sub(128, b'\x00' + seg_a)), 'binding sid empty'),
-        (tun(15, sub(13, b'\x00\x00' + _ip('2001:db8::99')) + sub(128, b'\x00' + seg_b)), 'binding sid 16 + segment type B (srv6)'),
-        (tun(15, pref + sub(15, b'\x05\x00') + sub(14, b'\x00\x00\x01') + sub(128, b'\x00' + seg_a) + sub(128, b'\x00' + weight + seg_a2)), 'priority + enlp + two segment lists'),
-        (tun(15, pref + sub(128, b'\x00' + seg_a) + sub(130, b'\x00' + b'policy-1')), 'policy name'),
-        (tun(15, pref + sub(129, b'\x00' + b'cpath-1') + sub(128, b'\x00' + seg_a)), 'candidate path name'),
+        (tun(15, sub(128, b'\x00' + weight + seg_a(100, True))), 'segment list one type A'),
+        (tun(15, pref + sub(128, b'\x00' + weight + seg_a(100, True))), 'preference + segment list'),
+        (tun(15, pref + bsid4 + sub(128, b'\x00' + weight9 + seg_a(100, False) + seg_a(200, True))), 'preference + binding sid label + weight 9 + two segments'),
+        (tun(15, sub(13, b'\x00\x00') + sub(128, b'\x00' + weight + seg_a(100, True))), 'binding sid empty'),
+        (tun(15, pref + sub(128, b'\x00' + weight + seg_b)), 'segment type B (srv6)'),
+        (tun(15, pref + sub(15, b'\x05\x00') + sub(128, b'\x00' + weight + seg_a(100, True)) + sub(128, b'\x00' + weight9 + seg_a(200, True))), 'priority + two segment lists'),
+        (tun(15, pref + sub(128, b'\x00' + weight + seg_a(100, True)) + sub(130, b'\x00' + b'policy-1')), 'policy name'),
+        (tun(15, pref + sub(129, b'\x00' + b'cpath-1') + sub(128, b'\x00' + weight + seg_a(100, True))), 'candidate path name'),
+        # RFC 9830 2.4.2: the Binding SID sub-TLV is 2, 6 or 18 octets long; 18 carries an SRv6 SID
+        (tun(15, sub(13, b'\x00\x00' + _ip('2001:db8::99')) + sub(128, b'\x00' + weight + seg_a(100, True))), 'binding sid of 18 octets (srv6 sid)'),
+        # a sub-TLV the implementation has no class for (ENLP, type 14, RFC 9830 2.4.5) is kept opaque
+        (tun(15, pref + sub(14, b'\x00\x00\x01') + sub(128, b'\x00' + weight + seg_a(100, True))), 'enlp sub-tlv (kept opaque)'),
     ]
     for v, what in te:
         add(23, O | T, v, f'rfc9830 sr-policy tunnel encap {what}')
@@ -742,7 +756,7 @@ def main():
         f.write('# afi\tsafi\taction\thex (one NLRI, no path identifier)\tsource\n')
         for r in rows:
             f.write('\t'.join(str(x) for x in r) + '\n')
-    arows = [(c, fl, int(a4), h, src) for (c, fl, a4, h), src in sorted(at.items())]
+    arows = [(c, fl, a4 if a4 == 'ap' else int(a4), h, src) for (c, fl, a4, h), src in sorted(at.items(), key=str)]
     aseen = {(c, fl, a4, h) for c, fl, a4, h, _ in arows}
     for c, fl, a4, h, src in hand_attrs():
         if (c, fl, int(a4), h) not in aseen:
